@@ -437,3 +437,150 @@ Proof.
       unfold tcp_delayed_ack_expired in D2. destruct (s_ack_delay_timer s1); try discriminate.
       cbn. lia.
 Qed.
+
+(* ------------------------------------------------------------------------------------------ *)
+(* preservation: API calls                                                                      *)
+(* ------------------------------------------------------------------------------------------ *)
+Ltac inv_destruct I := destruct I as [Il It Ic In Iu Ix Iw Is Ib Icc Ir IK].
+
+Lemma rb_clear_len : forall r, rb_len (rb_clear r) = 0.
+Proof. reflexivity. Qed.
+
+Lemma u32_0 : u32 0.
+Proof. unfold u32. lia. Qed.
+
+Lemma reset_inv : forall s, tcp_live_inv s -> tcp_live_inv (tcp_reset s).
+Proof.
+  intros s I. inv_destruct I. unfold tcp_reset.
+  constructor; unfold live_K; sproj; cbn [timer_new timer_is_close st_conn st_nodata st_live];
+    try discriminate; try congruence; auto using u32_0, rb_clear_wf, rtte_default_ok.
+  change (2 ^ 30) with 1073741824. lia.
+Qed.
+
+Lemma new_inv : forall rx tx cc ts s,
+  cc_ok cc -> tcp_new rx tx cc ts = Ok s -> tcp_live_inv s.
+Proof.
+  intros rx tx cc ts s Hcc H. unfold tcp_new in H.
+  destruct (rb_cap (rb_new rx) >? 2 ^ 30); [discriminate|]. inversion H; subst s; clear H.
+  constructor; unfold live_K; sproj; cbn [timer_new timer_is_close st_conn st_nodata st_live];
+    try discriminate; try congruence; auto using u32_0, rb_new_wf, rtte_default_ok.
+  change (2 ^ 30) with 1073741824. lia.
+Qed.
+
+Lemma reset_tx_len : forall s, rb_len (s_tx_buffer (tcp_reset s)) = 0.
+Proof. intros. unfold tcp_reset. sproj. reflexivity. Qed.
+
+Lemma reset_state : forall s, s_state (tcp_reset s) = Closed.
+Proof. intros. unfold tcp_reset. sproj. reflexivity. Qed.
+
+Lemma reset_timer : forall s, s_timer (tcp_reset s) = timer_new.
+Proof. intros. unfold tcp_reset. sproj. reflexivity. Qed.
+
+(* NOTE (proof engineering): [sproj] must only be used on sockets of the form
+   upd_a (upd_b (... x ...)) with [x] a VARIABLE: the kernel re-checks the reduction by
+   conversion, and comparing two different large socket terms under the same projection is
+   exponential.  Large sub-terms ([tcp_reset s], results of phases) are abstracted first. *)
+Lemma listen_inv : forall s ep s', tcp_live_inv s -> tcp_listen s ep = Ok s' -> tcp_live_inv s'.
+Proof.
+  intros s ep s' I H. unfold tcp_listen in H.
+  destruct (le_port ep =? 0); [discriminate|].
+  destruct (tcp_is_open s).
+  - destruct (tcp_state_eqb (s_state s) Listen && listen_endpoint_eqb (s_listen_endpoint s) ep);
+      inversion H; subst; exact I.
+  - inversion H; subst s'; clear H. pose proof (reset_inv s I) as J.
+    pose proof (reset_tx_len s) as HL. pose proof (reset_timer s) as HT.
+    revert J HL HT. generalize (tcp_reset s). intros R J HL HT. inv_destruct J.
+    constructor; unfold live_K; sproj; cbn [st_conn st_nodata st_live]; try discriminate; auto.
+    rewrite HT. discriminate.
+Qed.
+
+Lemma connect_inv : forall cx s ra rp le s',
+  ctx_ok cx -> tcp_live_inv s -> tcp_connect cx s ra rp le = Ok s' -> tcp_live_inv s'.
+Proof.
+  intros cx s ra rp le s' Hcx I H. unfold tcp_connect in H.
+  destruct (tcp_is_open s); [discriminate|].
+  destruct ((rp =? 0) || (ra =? 0)); [discriminate|].
+  destruct (le_port le =? 0); [discriminate|].
+  obind_inv H. inversion H; subst s'; clear H.
+  pose proof (reset_inv s I) as J.
+  pose proof (reset_tx_len s) as HL. pose proof (reset_timer s) as HT.
+  revert J HL HT. generalize (tcp_reset s). intros R J HL HT. inv_destruct J.
+  constructor; unfold live_K; sproj; cbn [st_conn st_nodata st_live]; try discriminate; auto.
+  - rewrite HT. discriminate.
+  - intros _. right. split; [reflexivity|]. lia.
+Qed.
+
+Lemma close_inv : forall s, tcp_live_inv s -> tcp_live_inv (tcp_close s).
+Proof.
+  intros s I. inv_destruct I. unfold tcp_close, live_K in *.
+  destruct (s_state s) eqn:Hst; try (constructor; unfold live_K; rewrite ?Hst; assumption);
+    constructor; unfold live_K; sproj; cbn [st_conn st_nodata st_live] in *;
+    try discriminate; auto; try (intros _; apply IK; reflexivity).
+  all: try (intros Hc; destruct (Ic Hc); discriminate).
+Qed.
+
+Lemma abort_inv : forall s, tcp_live_inv s -> tcp_live_inv (tcp_abort s).
+Proof.
+  intros s I. inv_destruct I. unfold tcp_abort.
+  constructor; unfold live_K; sproj; cbn [st_conn st_nodata st_live]; try discriminate; auto.
+Qed.
+
+Lemma send_slice_inv : forall s data s' n,
+  tcp_live_inv s -> tcp_send_slice s data = Ok (s', n) -> tcp_live_inv s'.
+Proof.
+  intros s data s' n I H. unfold tcp_send_slice in H.
+  destruct (tcp_may_send s) eqn:Hms; cbn [negb] in H; [|discriminate].
+  destruct (rb_enqueue_slice (s_tx_buffer s) data) as (tx, size) eqn:Henq.
+  inv_destruct I.
+  destruct (rb_enqueue_slice_spec _ _ _ _ Ib Henq) as (Wtx & _ & Ltx & Hsz & _).
+  assert (Hlive : st_live (s_state s) = true /\ st_nodata (s_state s) = false)
+    by (unfold tcp_may_send in Hms; destruct (s_state s); try discriminate; auto).
+  destruct Hlive as (Hlive & Hnd).
+  assert (Hnc : timer_is_close (s_timer s) = false).
+  { destruct (timer_is_close (s_timer s)) eqn:E; [|reflexivity].
+    destruct (Ic eq_refl) as [X|X]; rewrite X in Hlive; discriminate. }
+  destruct (size >? 0) eqn:Hpos.
+  2:{ inversion H; subst s' n; clear H. assert (size = 0) by lia. subst size.
+      constructor; unfold live_K in *; sproj; auto.
+      - rewrite Hnd. discriminate.
+      - rewrite Ltx, Z.add_0_r. exact IK. }
+  inversion H; subst s' n; clear H.
+  set (s1 := if rb_len (s_tx_buffer s) =? 0
+             then upd_remote_last_ts (upd_tx_buffer s tx) None else upd_tx_buffer s tx).
+  assert (C1 : s_state s1 = s_state s /\ s_timer s1 = s_timer s /\ s_tuple s1 = s_tuple s /\
+               s_tx_buffer s1 = tx /\ s_local_seq_no s1 = s_local_seq_no s /\
+               s_remote_last_seq s1 = s_remote_last_seq s /\ s_remote_win_len s1 = s_remote_win_len s /\
+               s_remote_win_scale s1 = s_remote_win_scale s /\
+               s_congestion_controller s1 = s_congestion_controller s /\ s_rtte s1 = s_rtte s).
+  { unfold s1. destruct (rb_len (s_tx_buffer s) =? 0); sproj; repeat split; reflexivity. }
+  destruct C1 as (C1 & C2 & C3 & C4 & C5 & C6 & C7 & C8 & C9 & C10).
+  destruct ((s_remote_win_len s1 =? 0) && timer_is_idle (s_timer s1)) eqn:Hz.
+  - (* window closed and timer idle: the probe timer is armed *)
+    constructor; unfold live_K; sproj; rewrite ?C1, ?C3, ?C4, ?C5, ?C6, ?C7, ?C8, ?C9, ?C10; auto.
+    + cbn. discriminate.
+    + rewrite Hnd. discriminate.
+  - constructor; unfold live_K in *; rewrite ?C1, ?C2, ?C3, ?C4, ?C5, ?C6, ?C7, ?C8, ?C9, ?C10; auto.
+    + rewrite Hnd. discriminate.
+    + intros _. destruct (IK Hlive) as [Ha | (Hfl & Hw)]; [left; exact Ha|].
+      destruct (timer_cases (s_timer s)) as [Hi | [Ha | Hc]]; [|left; exact Ha|congruence].
+      right. split; [exact Hfl|]. intros _ HW. rewrite C7, C2, HW, Hi in Hz. discriminate.
+Qed.
+
+Lemma recv_slice_core : forall s n s' l, tcp_recv_slice s n = Ok (s', l) -> core_eq s s'.
+Proof.
+  intros s n s' l H. unfold tcp_recv_slice in H. obind_inv H.
+  destruct (rb_dequeue_slice (s_rx_buffer s) n) as (rx, bytes). inversion H; subst. core_triv.
+Qed.
+
+Lemma set_keep_alive_inv : forall s d, tcp_live_inv s -> tcp_live_inv (tcp_set_keep_alive s d).
+Proof.
+  intros s d I. inv_destruct I. unfold tcp_set_keep_alive.
+  destruct (is_some d); constructor; unfold live_K in *; sproj; auto;
+    rewrite ?set_keep_alive_close, ?set_keep_alive_armed; auto.
+Qed.
+
+Lemma set_hop_limit_core : forall s h s', tcp_set_hop_limit s h = Ok s' -> core_eq s s'.
+Proof.
+  intros s h s' H. unfold tcp_set_hop_limit in H.
+  destruct h as [[|?|?]|]; inversion H; subst; core_triv.
+Qed.
